@@ -11,7 +11,7 @@ import json, os, subprocess, sys, glob, tempfile, shutil, re
 from concurrent.futures import ThreadPoolExecutor
 V = '/verif'
 jobs = int(sys.argv[1]) if len(sys.argv) > 1 else 8
-REINTRO = {'F1': 'C20', 'F2': 'C04', 'F3': 'C16', 'F4': 'C13', 'F5': 'C14'}
+REINTRO = {'F1': 'C20', 'F2': 'C04', 'F3': 'C16', 'F4': 'C13', 'F5': 'C14', 'F8': 'C17', 'F8b': 'C17'}
 
 def keys_for(patch, prop):
     t = tempfile.mkdtemp(prefix='mkindex.')
